@@ -667,8 +667,19 @@ pub fn gen_memory(seed: u64, theme: usize) -> Vec<u8> {
     let density = 3000 + rng.below(9000) as usize;
     for _ in 0..density {
         let th = if rng.chance(3, 4) { theme } else { 1 + rng.below(THEMES as u64 - 1) as usize };
-        let s = snippet(&mut rng, th);
+        let mut s = snippet(&mut rng, th);
         let at = rng.u16() as usize;
+        // instructions that refer to themselves: a jump / call / load whose operand is its own address (the
+        // tightest idle loop, `JP $`, among them), `JR $`, `DJNZ $`
+        if rng.chance(1, 24) {
+            s = match rng.below(6) {
+                0 | 1 => vec![0xC3, at as u8, (at >> 8) as u8],
+                2 => vec![*rng.pick(&[0xCDu8, 0xCA, 0xC2, 0xDA, 0xD2, 0x2A, 0x22, 0x3A, 0x32, 0x21, 0x01, 0x11, 0x31]), at as u8, (at >> 8) as u8],
+                3 => vec![0x18, 0xFE],
+                4 => vec![*rng.pick(&[0x10u8, 0x20, 0x28, 0x30, 0x38]), 0xFE],
+                _ => vec![*rng.pick(&[0xDDu8, 0xFD, 0xED]), *rng.pick(&[0x2Au8, 0x22, 0x21, 0x4B, 0x43, 0x5B, 0x53, 0x7B, 0x73]), at as u8, (at >> 8) as u8],
+            };
+        }
         for (i, b) in s.iter().enumerate() {
             mem[(at + i) & 0xFFFF] = *b;
         }
